@@ -84,6 +84,9 @@ package object
 //@     && kindOfName(kindName(t)) == t && isKindName(kindName(t))
 //@     && payloadOf(objBytes(t, d)) == d
 
+// the object files live two levels below <root>/objects: no other file of the repository is one of them
+//@ lemma [objects-apart] {C03,C16} forall root string, h string, n string {pjoin(root, n), objPath(root, h)} :: validName(n) && n != "objects" && len(h) >= 2 ==> pjoin(root, n) != objPath(root, h) && pjoin(root, n) != objDir(root, h)
+
 // kind of whatever is stored under an id: the word before the first blank of the decompressed content's header
 //@ pred plainOf(f, root, h) := zlibDec(content(f, objPath(root, h)))
 //@ pred storedKind(f, root, h) := kindOfName(splitHead(bsub(plainOf(f, root, h), 0, indexOfByte(plainOf(f, root, h), 0, 0)), " "))
